@@ -74,8 +74,20 @@ class Capture(Handler):
         self.off_shift_dispatch = []
         self.shifts = shifts or {}
         self.availability_vs_clock = []
+        self.two_vehicles_one_request = []
     def handle(self, reports, runner_payload):
         sim = runner_payload.s
+        # C17, third sentence: under the built-in dispatcher at most one vehicle is travelling to any request
+        going = {}
+        for vid, v in sim.vehicles.items():
+            st = v.vehicle_state
+            if type(st).__name__ == 'DispatchTrip':
+                going.setdefault(st.request_id, []).append(vid)
+        for rid, vids in going.items():
+            if len(vids) > 1 and len(self.two_vehicles_one_request) < 5:
+                rq = sim.requests.get(rid)
+                self.two_vehicles_one_request.append({'step': len(self.steps), 'time': int(sim.sim_time), 'request': rid, 'vehicles': sorted(vids),
+                                                      'request_fleets': sorted(rq.membership.memberships) if rq is not None else None})
         # C20 by the clock: the availability a human driver has in the step that just ran is decided by the time at which that
         # step started (start inclusive, end exclusive, wrapping past midnight)
         t_start = int(sim.sim_time) - int(sim.sim_timestep_duration_seconds)
@@ -189,6 +201,7 @@ def main():
     out['timeout'] = int(cfg.sim.request_cancel_time_seconds)
     out['off_shift_dispatch'] = cap.off_shift_dispatch
     out['availability_vs_clock'] = cap.availability_vs_clock
+    out['two_vehicles_one_request'] = cap.two_vehicles_one_request
     out['human_drivers'] = sum(1 for v in rp.s.vehicles.values() if 'Human' in type(v.driver_state).__name__)
     if a.detail:
         out['detail'] = details
